@@ -85,6 +85,7 @@ class KaniProp:
             sc.close()
 
     def _run(self, pid, tier, seed, args, sc, all_insts, mine, t0):
+        sc.need_score_table = any(getattr(i, "family", None) == "nucleo_scored" for i in mine)
         self.gen_meta = self.gen_mod.write_gen(sc, tier)
         self.oracle_ok = 0
         if self.selftest:
@@ -496,6 +497,111 @@ class MirxProp:
         return 0
 
 
+class MirDropProp:
+    """C11, unwinding clause: MIR of boxcar::Vec::push / extend -> transition system over basic blocks with drop
+    flags -> bounded reachability in z3 ("an exit at which the item is not dropped exactly once / not owned by a
+    published slot"); a satisfiable query is confirmed by a native run with a panicking callback."""
+    TARGETS = (("push", "value", 70, "push"), ("extend", "v", 90, "extend:1"))
+
+    def run(self, pid, tier, seed, args):
+        import mirx, mirdrop, subprocess
+        t0 = time.time()
+        sc = engine.Scratch(pid, shims=(), keep=args.keep)
+        try:
+            return self._run(pid, tier, seed, args, sc, t0, mirx, mirdrop)
+        finally:
+            sc.close()
+
+    def _run(self, pid, tier, seed, args, sc, t0, mirx, mirdrop):
+        import subprocess
+        inconclusive, samples, violations = [], [], []
+        queries, solver_s = 0, 0.0
+        try:
+            mir = mirx.dump_mir(sc.native_repo(), sc.dir + "/nucleo.mir")
+            fs = mirx.functions(mir)
+        except RuntimeError as e:
+            print("INCONCLUSIVE: MIR dump: %s" % e)
+            engine.write_evidence(pid, tier, seed, {"evaluations": 1, "distinct_nontrivial": 1, "samples": [str(e)], "inconclusive": [str(e)]}, [], time.time() - t0, 0)
+            return 2
+        for fn, dbg, steps, probe in self.TARGETS:
+            if tier == "thorough":
+                steps = steps * 2
+            try:
+                key = [k for k in fs if k.endswith("::" + fn) and "boxcar" in k and "impl at" in k]
+                if len(key) != 1:
+                    raise mirdrop.ShapeError("boxcar::Vec::%s not found exactly once in the MIR dump" % fn)
+                md = mirdrop.model(fs[key[0]], dbg)
+                wtxt, names = mirdrop.smt(md, steps, goal="witness")
+                vtxt, _ = mirdrop.smt(md, steps, goal="violation")
+            except mirdrop.ShapeError as e:
+                inconclusive.append("%s: %s" % (fn, e))
+                continue
+            rw, ow, tw = mirdrop.solve(wtxt); queries += 1; solver_s += tw
+            if rw != "sat":
+                inconclusive.append("%s: vacuity witness failed - the exit after a panic in the fill callback is not reachable in the model (%s)" % (fn, rw))
+            rv, ov, tv = mirdrop.solve(vtxt); queries += 1; solver_s += tv
+            samples.append({"function": "boxcar::Vec::" + fn, "item_local": md["item"], "drop_flags": md["flags"], "fill_call_block": md["fill"],
+                            "blocks": len(md["blocks"]), "bound_block_steps": steps, "violation_query": rv, "z3_s": round(tv, 1),
+                            "witness_query(unwind exit with the item dropped once)": rw, "witness_path": mirdrop.path_of(ow, names) if rw == "sat" else None})
+            if rv == "sat":
+                path = mirdrop.path_of(ov, names)
+                log("[%s] %s: the model reaches an exit with the item unaccounted: %s" % (pid, fn, " ".join(path)))
+                ok, tail = self._native(sc, probe)
+                if ok:
+                    rdir = os.environ.get("VERIF_REPLAY_DIR", VERIF + "/replays")
+                    os.makedirs(rdir, exist_ok=True)
+                    rp = rdir + "/%s.mirdrop_%s.json" % (pid, fn)
+                    json.dump({"property": pid, "engine": "mirdrop", "function": fn, "block_path": path, "native_probe": probe, "native_output": tail}, open(rp, "w"), indent=1)
+                    violations.append((fn, rp, tail))
+                else:
+                    inconclusive.append("%s: the model finds an unaccounted item on the unwind path but the native run with a panicking callback is clean (%s)" % (fn, tail))
+            elif rv != "unsat":
+                inconclusive.append("%s: solver answered %s" % (fn, rv))
+        for fn, rp, tail in violations:
+            print("VIOLATION property=%s replay=%s" % (pid, rp))
+            print("  function=boxcar::Vec::%s native: %s" % (fn, tail))
+        for i in inconclusive:
+            print("INCONCLUSIVE: %s" % i)
+        cov = {"evaluations": queries, "distinct_nontrivial": len(samples),
+               "rule": "evaluations = SMT queries (per function one bounded-reachability query for the violation and one vacuity witness); distinct = functions modelled",
+               "samples": samples, "functions_encoded": ["boxcar::Vec::push (MIR, drop-elaborated)", "boxcar::Vec::extend (MIR, drop-elaborated)"],
+               "bounds": "paths of at most the stated number of basic-block steps from the function entry; one item (the one the callback is called for)",
+               "outside_bounds": ["unwinding out of library calls that can only fail by allocation failure / capacity overflow", "the previous loop item at the moment the loop variable is overwritten (extend)",
+                                  "what the callback does to the columns it was given (they are initialised before the call and dropped with the bucket: C11 history harnesses)"],
+               "solver_time_s": round(solver_s, 1), "solver": "z3 4.8.12", "inconclusive": inconclusive, "traces_validated_against_impl": len(violations)}
+        engine.write_evidence(pid, tier, seed, cov,
+                              ["drop flags, cleanup blocks and moves are read from the nightly MIR dump of the current tree (after drop elaboration)",
+                               "branches on data are nondeterministic, branches on drop flags follow the flag; only calls of user code (fill callback, iterator) take their unwind edge",
+                               "a path found by the solver is reported only if a native run with a panicking callback and drop-counting items shows a leak or a double drop"],
+                              time.time() - t0, len(violations))
+        if violations:
+            return 1
+        return 2 if inconclusive else 0
+
+    def _native(self, sc, probe):
+        import subprocess
+        nucleo_props.write_gen(sc, "quick", small=True)
+        env = sc.env(True)
+        env["CARGO_TARGET_DIR"] = sc.dir + "/native-target"
+        env["NUCLEO_VERIF_PANIC"] = probe
+        p = subprocess.run(["cargo", "test", "-p", "nucleo", "--lib", "--offline", "verif::boxcar_h::panic_probe", "--", "--exact", "--nocapture"],
+                           cwd=sc.native_repo(), env=env, capture_output=True, text=True, timeout=1200)
+        m = re.search(r"PANIC-PROBE (.*)", p.stdout + p.stderr)
+        if not m:
+            return False, "native probe did not run: " + (p.stdout + p.stderr)[-300:]
+        return m.group(1).startswith("bad"), m.group(1)[:300]
+
+    def replay(self, path):
+        rec = json.load(open(path))
+        sc = engine.Scratch("replay", shims=())
+        try:
+            ok, tail = self._native(sc, rec["native_probe"])
+            print("native probe: %s" % tail)
+            return 1 if ok else 0
+        finally:
+            sc.close()
+
+
 class Multi:
     """A property decided by several engines/harness families: runs each, merges verdict and evidence."""
     def __init__(self, parts):
@@ -509,7 +615,8 @@ class Multi:
         for part in self.parts:
             rc = part.run(pid, tier, seed, args)
             rcs.append(rc)
-            ev = json.load(open(VERIF + "/evidence/%s.json" % pid))
+            evdir = os.environ.get("VERIF_EVIDENCE_DIR", VERIF + "/evidence")
+            ev = json.load(open(evdir + "/%s.json" % pid))
             if merged is None:
                 merged = ev
             else:
@@ -521,7 +628,7 @@ class Multi:
                 merged["assumptions"] = list(merged["assumptions"]) + [a for a in ev["assumptions"] if a not in merged["assumptions"]]
                 merged["violations"] += ev["violations"]
         merged["wall_s"] = round(time.time() - t0, 1)
-        json.dump(merged, open(VERIF + "/evidence/%s.json" % pid, "w"), indent=1)
+        json.dump(merged, open(evdir + "/%s.json" % pid, "w"), indent=1)
         if 1 in rcs:
             return 1
         if 2 in rcs:
@@ -529,6 +636,10 @@ class Multi:
         return 0
 
     def replay(self, path):
+        rec = json.load(open(path))
+        for part in self.parts:
+            if rec.get("engine") == "mirdrop" and isinstance(part, MirDropProp):
+                return part.replay(path)
         return self.parts[0].replay(path)
 
 
@@ -556,7 +667,7 @@ boxcar = KaniProp("nucleo", nucleo_props.boxcar_instances, "C08", shims=NUCLEO_S
                   outside=["interleavings of concurrent push/extend/get (Kani has no threads; CBMC's thread encoding rejects Rust-generated pointer code) - sequential histories only",
                            "fill callbacks that panic (panic=abort under Kani)", "histories longer than the per-tier bound"])
 
-proto = KaniProp("nucleo", nucleo_props.proto_instances, "C06", shims=NUCLEO_SHIMS, gen_mod=nucleo_props, replay_with_shims=True,
+proto = KaniProp("nucleo", lambda tier: nucleo_props.proto_instances(tier) + nucleo_props.scored_instances(tier), "C06", shims=NUCLEO_SHIMS, gen_mod=nucleo_props, replay_with_shims=True,
                  functions=["Nucleo::{new, injector, restart, tick, tick_inner, active_injectors, snapshot}", "Injector::{clone, drop, push}", "Snapshot::{update, clear}",
                             "Worker::{new, run, process_new_items, process_new_items_trivial, reset_matches, remove_in_flight_matches, item_count}", "State::*", "MultiPattern::{status, reset_status}",
                             "boxcar::Vec::*", "par_sort::par_quicksort"],
@@ -595,7 +706,7 @@ PROPS = {
     "C20": proto,
     "C18": sort,
     "C08": boxcar,
-    "C11": boxcar,
+    "C11": Multi([boxcar, MirDropProp()]),
     "C05": exact,
     "C16": chars,
     "C01": both,
